@@ -270,8 +270,8 @@ def run(ctx):
     ge, se, re_ = (os.path.join(ctx.build, n) for n in ('gen_events.ndjson', 'sim_events.ndjson', 'rand_events.ndjson'))
     ctx.run([binp, 'replay', gp, ge, '1'], check=True, timeout=1500)
     ctx.run([binp, 'replay', sp, se, '2'], check=True, timeout=1500)
-    nrand, nbig = (12000, 150) if thorough else (800, 4)
-    ctx.run([binp, 'rand', str(nrand), re_, str(nbig)], check=True, timeout=1500)
+    nrand, nbig, nmany = (12000, 150, 120) if thorough else (800, 4, 10)
+    ctx.run([binp, 'rand', str(nrand), re_, str(nbig), str(nmany)], check=True, timeout=1500)
     gen_ev, sim_ev, rand_ev = vlib.read_ndjson(ge), vlib.read_ndjson(se), vlib.read_ndjson(re_)
     if len(gen_ev) != len(gen_cases) or len(sim_ev) != 2 * len(sim_cases) or len(rand_ev) != nrand:
         raise Inconclusive('harness produced an unexpected number of events')
@@ -315,7 +315,7 @@ def run(ctx):
     ctx.cov['format_x_link_combinations'] = len(combos)
     ctx.cov['min_events_per_combination'] = min(combos.values())
     ctx.cov['events_by_feature'] = dict(feats)
-    ctx.cov['events'] = dict(gen=len(gen_ev), sim=len(sim_ev), rand=len(rand_ev), rand_big=nbig, largest_capture_bytes=max(e['bytes'] for e in events),
+    ctx.cov['events'] = dict(gen=len(gen_ev), sim=len(sim_ev), rand=len(rand_ev), rand_big=nbig, rand_many_small_segments=nmany, largest_capture_bytes=max(e['bytes'] for e in events),
                              max_packets=max(len(e['wire']) for e in events), rejected=len(rejects))
     if len(combos) < 36:
         raise Inconclusive('not every format x link combination was exercised (%d of 36)' % len(combos))
